@@ -17,6 +17,7 @@ from facts import strip, show, walk, const_val, normalize_cond, atom_of
 def check(run, prog, tier):
     run.rule("C16-a", "save_object: stream opened on the temporary; writes use that stream; the final name appears only as rename()'s target, after a successful fclose and under `success`; failure paths unlink the temporary", 5)
     run.rule("C16-b", "svalue_save_size / save_svalue agree per tag (cases, constant overhead, per-element delimiters); save_object_recurse and save_variable allocate what svalue_save_size returned", 8)
+    run.rule("C16-d", "top-level restore functions reset the parser's file-scope nesting state (save_svalue_depth / save_svalue_sizes) on every path after a compound restore, success or error", 2)
     run.rule("C16-c", "safe_restore_svalue assigns *v only on the success path, after freeing the old value; every parse-error return precedes it", 2)
 
     unit = prog.unit("lib/lpc/object.c")
@@ -183,6 +184,26 @@ def check(run, prog, tier):
                 ok = a.get("n") == size_var
             why = "%s allocates %s from %s = svalue_save_size(...)" % (f.name, show(alloc)[:50], size_var)
         run.ob("C16-b", "alloc:" + f.name, ok, why, f.file, f.line, f.name, what="%s does not allocate the size computed by svalue_save_size" % f.name)
+
+    # ---- C16-d: the restore parser's file-scope nesting state is reset on every exit of a top-level restore
+    COMPOUND = ("restore_array", "restore_mapping", "restore_class")
+    tops = [f for f in unit.funcs.values() if f.file.endswith("object.c") and f.name not in COMPOUND and f.name not in ("restore_internal_size", "restore_size")
+            and any(True for _ in f.calls(COMPOUND))]
+    run.need(len(tops) >= 1, "top-level restore entry points")
+    for f in sorted(tops, key=lambda x: x.line):
+        run.saw(f)
+        resets = [bid for bid in f.reachable() if f.branch_cond(bid) is not None and strip(f.branch_cond(bid)).get("n") == "save_svalue_depth"]
+        zero = any(n.get("k") == "Asg" and "save_svalue_depth" in show(n["L"]) and (const_val(n["R"]) == 0 or "= 0" in show(n)) for b, i, n in f.nodes())
+        calls = [(b, i, n) for b, i, n in f.calls(COMPOUND)]
+        bad = None
+        for b, i, n in calls:
+            p = f.reach_avoiding(b.live_succ() if b.id not in resets else [], lambda blk: f.exit in blk.live_succ() and not blk.nr, avoid_blocks=resets)
+            if p is not None:
+                bad = (n["fn"], p)
+        ok = bool(resets) and zero and bad is None
+        run.ob("C16-d", "reset:%s" % f.name, ok, "after %s every path to a return passes the `if (save_svalue_depth)` reset: %s" % ("/".join(sorted({n["fn"] for b, i, n in calls})), ok) if ok else
+               ("path %s returns from %s after %s without resetting save_svalue_depth/save_svalue_sizes" % (bad[1][:8], f.name, bad[0]) if bad else "%s has no reset of the nesting state" % f.name),
+               f.file, f.line, f.name, what="%s can return (on a parse error) with the restore nesting state still set: the next restore of valid text is mis-sized or reads a freed table" % f.name)
 
     # ---- C16-c
     stores = [(b, i, n) for b, i, n in srs.nodes() if n.get("k") == "Asg" and strip(n["L"]).get("k") == "Un" and strip(n["L"]).get("op") == "*" and strip(strip(n["L"])["e"]).get("d") == "param"]
